@@ -425,6 +425,40 @@ pub fn scn_sorter(out: &mut TraceOut, r: &mut R, idx: u64, heavy: bool) {
         run_logged(out, &cfg, &inserts, &ids);
         return;
     }
+    // corner: a sorter built with nothing but defaults (1 GiB budget, 25 chunks, stable, realloc)
+    if idx % 41 == 11 {
+        let n = 500;
+        let keys: Vec<Vec<u8>> = (0..40u32).map(|i| i.to_be_bytes().to_vec()).collect();
+        let inserts: Vec<Entry> = (0..n).map(|i| (pick(r, &keys).clone(), stoken(i as u32 + 1, *pick(r, &[0usize, 8, 30])))).collect();
+        let dict = Dict::build(inserts.iter().map(|(k, _)| k.clone()));
+        out.ev(dict.event());
+        out.ev(json!({"ev": "SCfg", "teff": 1073741824, "hook": false, "init": 131072, "realloc": true, "maxc": 25, "stable": true,
+                      "mf": "concat", "threads": 0, "creator": 1, "mode": 0, "defaults": true}));
+        let rec = Recorder { mf: Mf::Concat, calls: RefCell::new(Vec::new()) };
+        let res = catch_unwind(AssertUnwindSafe(|| -> Result<OutEntries, String> {
+            let mut sorter = Sorter::builder(&rec).chunk_creator(CursorVec).build();
+            for (k, v) in &inserts {
+                sorter.insert(k, v).map_err(|e| e.to_string())?;
+            }
+            let mut it = sorter.into_stream_merger_iter().map_err(|e| e.to_string())?;
+            let mut o = Vec::new();
+            while let Some((k, v)) = it.next().map_err(|e| e.to_string())? {
+                o.push((k.to_vec(), v.to_vec()));
+            }
+            Ok(o)
+        }));
+        for (i, (k, v)) in inserts.iter().enumerate() {
+            out.ev(json!({"ev": "SIns", "k": dict.id(k), "id": if v.is_empty() { 0 } else { i as i64 + 1 }, "size": k.len() + v.len(), "res": "ok"}));
+        }
+        match res {
+            Ok(Ok(entries)) => {
+                let named: Vec<Value> = entries.iter().map(|(k, v)| json!({"k": dict.strs.binary_search(k).map(|i| i as i64 + 1).unwrap_or(0), "v": parse_tokens(v)})).collect();
+                out.ev(json!({"ev": "SOut", "res": "ok", "mode": 0, "entries": named}));
+            }
+            _ => out.ev(json!({"ev": "SOut", "res": "failed", "mode": 0, "entries": []})),
+        }
+        return;
+    }
     // corner: chunks of ~100 entries with 300-byte keys and deep index trees
     if idx % 41 == 9 {
         cfg.hook = Some((40_000, 1024));
